@@ -12,3 +12,6 @@ Lemma go_getRemainingSleep : forall now start interval,
   run_fun gen_funs [("$now", VZ now); ("time.Millisecond", VZ Lazy.ms)] "getRemainingSleep" None [VZ start; VZ interval] =
   Some [VZ (Lazy.remaining (now - start) interval)].
 Proof. intros. unfold Lazy.remaining. glazy. destruct (now - start <? interval)%Z; reflexivity. Qed.
+
+(* every lemma is closed under the global context (bin/tr-golite fails on any "Axioms:" line) *)
+Print Assumptions go_getRemainingSleep.
